@@ -14002,6 +14002,10 @@ int cgi_update_posit(int cnt, int *index, char **label)
         cgi_error("goto position not set");
         return CG_ERROR;
     }
+    /* names are looked up in the file of the current position, whatever
+       file the last library call addressed */
+    cg = cgi_get_file(posit_file);
+    if (cg == 0) return CG_ERROR;
 
     for (n = 0; n < cnt; n++) {
         if (strlen(label[n]) > 32) {
